@@ -262,7 +262,9 @@ def squeeze_check(rec):
         if agg and r[0] in ("RG", "U") and 1 in shp:
             keep = [i for i, s in enumerate(shp) if s != 1]
             removed += len(shp) - len(keep)
-            if r[0] == "RG":
+            if r[0] == "RG" and not keep:
+                pass          # every axis of the grid has length one: the space disappears
+            elif r[0] == "RG":
                 trs.append(["RG", [shp[i] for i in keep], [r[2][i] for i in keep], r[3]])
             else:
                 trs.append(["U", [shp[i] for i in keep]])
